@@ -39,7 +39,16 @@ func (w *expiryWatcher) NewBlock(bestHeight uint32) {
 	defer w.expirationsMtx.Unlock()
 
 	w.bestHeight = bestHeight
-	w.overdueExpirations(w.bestHeight)
+
+	// Handle every tracked height up to and including the new best height.
+	// Blocks can be skipped (or an expiry can be registered before the first
+	// block is known), so only looking at the exact height would leave
+	// those accounts without an expiry notification forever.
+	for height := range w.expirationsPerHeight {
+		if height <= bestHeight {
+			w.overdueExpirations(height)
+		}
+	}
 }
 
 // overdueExpirations handles the expirations for the given block.
